@@ -38,7 +38,11 @@ type capsEntry struct {
 // used: before the upgrade the plaintext connection has a history of its own
 // (an authentication where plaintext AUTH is allowed, an open transaction):
 // what is advertised and honoured afterwards is the entry's all the same.
-func runCaps(e *capsEntry, implicit bool, n int, used bool) []string {
+//
+// failedHS (plaintext entries with TLS configured): an upgrade was tried and the
+// handshake failed - the connection is as unprotected as before, and what is
+// advertised and honoured is the plaintext entry's.
+func runCaps(e *capsEntry, implicit bool, n int, used bool, failedHS bool) []string {
 	var problems []string
 	bad := func(f string, a ...interface{}) { problems = append(problems, fmt.Sprintf(f, a...)) }
 	c := e.Cfg
@@ -89,6 +93,15 @@ func runCaps(e *capsEntry, implicit bool, n int, used bool) []string {
 			return append(problems, "handshake: "+err.Error())
 		}
 		cn.WaitIdle()
+	}
+	if failedHS {
+		code(verb + " pre.test")
+		if code("STARTTLS") != 220 {
+			return append(problems, "STARTTLS refused although TLS is configured")
+		}
+		if rs, _, err := cn.Replies([]byte("HELLO")); err != nil || len(rs) != 1 || rs[0].Code/100 != 5 {
+			return append(problems, fmt.Sprintf("five octets that are no TLS record header after the 220: %v %v", codes(rs), err))
+		}
 	}
 	if !c.Lmtp {
 		rs := ask("HELO h.test")
@@ -206,22 +219,25 @@ func init() {
 			if e.Active && e.Cfg.TlsConfigured {
 				variants = []bool{false, true} // via STARTTLS and implicit TLS
 			}
-			type variant struct{ implicit, used bool }
+			type variant struct{ implicit, used, failedHS bool }
 			var vs []variant
+			if !e.Active && e.Cfg.TlsConfigured {
+				vs = append(vs, variant{false, false, true})
+			}
 			for _, implicit := range variants {
-				vs = append(vs, variant{implicit, false})
+				vs = append(vs, variant{implicit, false, false})
 				if e.Active && !implicit && e.Cfg.TlsConfigured {
-					vs = append(vs, variant{false, true})
+					vs = append(vs, variant{false, true, false})
 				}
 			}
 			for _, v := range vs {
-				implicit, used := v.implicit, v.used
+				implicit, used, failedHS := v.implicit, v.used, v.failedHS
 				wg.Add(1)
 				go func(e *capsEntry, implicit bool) {
 					defer wg.Done()
 					sem <- struct{}{}
 					defer func() { <-sem }()
-					probs := runCaps(e, implicit, n, used)
+					probs := runCaps(e, implicit, n, used, failedHS)
 					mu.Lock()
 					defer mu.Unlock()
 					nrun++
@@ -230,8 +246,8 @@ func init() {
 						if i := strings.Index(p, ":"); i > 0 {
 							kind = p[:i]
 						}
-						run.Report(evid.Div{Prop: "C12", Key: fmt.Sprintf("caps:%s:active=%v:implicit=%v:lmtp=%v:used=%v", kind, e.Active, implicit, e.Cfg.Lmtp, used),
-							Msg: fmt.Sprintf("configuration %+v, TLS active=%v (implicit=%v, plaintext history before the upgrade=%v): %s", e.Cfg, e.Active, implicit, used, p), Replay: map[string]interface{}{"engine": "caps", "entry": e, "implicit": implicit, "used": used}})
+						run.Report(evid.Div{Prop: "C12", Key: fmt.Sprintf("caps:%s:active=%v:implicit=%v:lmtp=%v:used=%v:failedhs=%v", kind, e.Active, implicit, e.Cfg.Lmtp, used, failedHS),
+							Msg: fmt.Sprintf("configuration %+v, TLS active=%v (implicit=%v, plaintext history before the upgrade=%v, after a failed handshake=%v): %s", e.Cfg, e.Active, implicit, used, failedHS, p), Replay: map[string]interface{}{"engine": "caps", "entry": e, "implicit": implicit, "used": used}})
 					}
 				}(e, implicit)
 			}
